@@ -91,8 +91,11 @@ impl LruManager {
         let idx = if let Some(free_idx) = self.free_list.pop() {
             free_idx
         } else {
-            // Evict LRU tail to make room
-            let Some(evicted) = self.evict_tail() else {
+            // Evict LRU tail to make room and reuse the slot it frees
+            if self.evict_tail().is_none() {
+                return false;
+            }
+            let Some(evicted) = self.free_list.pop() else {
                 return false;
             };
             evicted
@@ -125,6 +128,7 @@ impl LruManager {
         self.key_map.remove(&entry.ekey);
         self.unlink(tail);
         self.entries[tail as usize] = LruFileEntry::empty();
+        self.free_list.push(tail);
 
         Some(tail)
     }
